@@ -148,10 +148,10 @@ def diff_bytes_files(path1, path2, blocksize=65535, startpos1=0, startpos2=0):
                 size_remaining = 0
                 if not buf2:
                     curpos = f1.tell()
-                    size_remaining = f1.fstat(f1.fileno()).st_size - curpos - len(buf1)
+                    size_remaining = os.fstat(f1.fileno()).st_size - curpos + len(buf1)
                 elif not buf1:
                     curpos = f2.tell()
-                    size_remaining = f2.fstat(f2.fileno()).st_size - curpos - len(buf2)
+                    size_remaining = os.fstat(f2.fileno()).st_size - curpos + len(buf2)
                 diff_count += size_remaining
                 total_size += size_remaining
                 break
@@ -163,6 +163,10 @@ def diff_bytes_files(path1, path2, blocksize=65535, startpos1=0, startpos2=0):
                     if char1 != char2:
                         diff_count += 1
                     total_size += 1
+                # One file ended inside this chunk: the surplus bytes of the other one are differences too
+                size_diff = abs(len(buf1) - len(buf2))
+                diff_count += size_diff
+                total_size += size_diff
     return diff_count, total_size
 
 def diff_bytes_dir(dir1, dir2):
